@@ -136,6 +136,8 @@ def main():
 
 
 def run_importer(args, gffutils, log, state, tmpdir):
+    import gc
+    gc.disable()
     mon = sys.monitoring
     tool = 4
     try:
@@ -195,6 +197,10 @@ def run_importer(args, gffutils, log, state, tmpdir):
     t0 = time.time()
     err = None
     kw = {"force": True} if args.get("force") else {}
+    if args.get("merge_strategy"):
+        kw["merge_strategy"] = args["merge_strategy"]
+    if args.get("no_inference"):
+        kw.update({"disable_infer_genes": True, "disable_infer_transcripts": True})
     try:
         if args.get("shared_iterator"):
             db = gffutils.create_db(state["shared_it"], args["out_db"], **kw)
@@ -208,9 +214,9 @@ def run_importer(args, gffutils, log, state, tmpdir):
     except BaseException as ex:
         err = repr(ex)
     mon.set_events(tool, 0)
-    import gc
-    gc.collect()
-    # the import has finished (this process is still alive): which of the temp files this process created are still there?
+    # the import has finished (this process is still alive, the garbage collector has been off all along - what a worker
+    # that ends through os._exit, or a long-lived server, is left with): which of the temp files this process created are
+    # still there?
     mine = set(name for ev, name, mode, t in log if ev == "mkstemp")
     still_there = sorted(n for n in mine if os.path.exists(os.path.join(tmpdir, n)))
     json.dump({"pid": os.getpid(), "log": log, "barrier": state["barrier"], "error": err, "t0": t0, "t1": time.time(),
